@@ -666,7 +666,7 @@ func (g *generator) convertSelectionSet(
 			// We say: that's too complicated! and allow duplicate fields
 			// only if they're "leaf" types (enum or scalar).
 			switch field.GoType.Unwrap().(type) {
-			case *goOpaqueType, *goEnumType:
+			case *goOpaqueType, *goEnumType, *goTypenameForBuiltinType:
 				// Leaf field; we can just deduplicate.
 				// Note GraphQL already guarantees that the conflicting field
 				// has scalar/enum type iff this field does:
